@@ -596,6 +596,12 @@ class HTMLBinaryInputStream(HTMLUnicodeInputStream):
         """
         buffer = self.rawStream.read(self.numBytesMeta)
         assert isinstance(buffer, bytes)
+        # a source may hand the bytes out in pieces
+        while len(buffer) < self.numBytesMeta:
+            more = self.rawStream.read(self.numBytesMeta - len(buffer))
+            if not more:
+                break
+            buffer += more
         parser = EncodingParser(buffer)
         self.rawStream.seek(0)
         encoding = parser.getEncoding()
